@@ -365,8 +365,14 @@ func verifC02_ValidateJumpIf() {
 	flow := vFlowForValidation("n", n, verifBound("jumpEntries"))
 	spec := &Spec{Flow: flow}
 	specs := vSpecs(flow)
-	rejected := vPanics(func() { spec.ValidateJumpIf(specs) })
 	valid := vRefValid(flow)
+	// the flow may name a filter the pipeline does not define (cross-reference flow -> filters)
+	if k := verifChoose("nodeWhoseFilterIsUndefined", n+1); k < n && flow[k].FilterName != BuiltInFilterEnd {
+		delete(specs, flow[k].FilterName)
+		valid = false
+		verifCover("flow-names-an-undefined-filter")
+	}
+	rejected := vPanics(func() { spec.ValidateJumpIf(specs) })
 	verifAssert(rejected == !valid, "validation-accepts-iff-targets-unique-later-and-results-declared")
 	if rejected {
 		verifCover("rejected")
